@@ -9,7 +9,7 @@ script) is the run in which the OS never splits a transfer.  `noHard os.sc` = th
 counts and `EINTR`s.  Statement form: `run loop script = run loop OS.full` on everything the caller can
 observe, plus "success ⇒ the whole transfer happened" for *arbitrary* scripts (hard errors included).
 -/
-import Sqfs.Proofs.IoIdeal
+import Sqfs.Proofs.IoXfrm
 namespace Sqfs.C12
 open Sqfs.IoLoops Sqfs.IoLoops.Spec
 
@@ -78,6 +78,7 @@ theorem write_at_never_short (file : Bytes) (sizeField off : Nat) (data : Bytes)
     split <;> omega
   | io => simp
   | oob => simp
+  | compressor => simp
   | fuel => simp at h1
 
 /-! ### the file ostream: `write_all`, `realize_sparse`, `file_append`, `file_flush` -/
@@ -137,6 +138,7 @@ theorem write_all_never_short : ∀ (ops : List OOp) (st : OStream) (idx : Nat) 
       rw [h5 hok, (h3 rfl).1]; simp
     | io => simp
     | oob => simp
+    | compressor => simp
     | fuel => simp at h1
 
 /-! ### the buffered file istream and its clients -/
@@ -230,6 +232,39 @@ theorem record_to_memory_spec (B : Nat) (hB : 0 < B) (data : Bytes) (s : IStream
   obtain ⟨_, _, h1, _⟩ := recordToMemory_sim (file_sim B hB data) s t size os OS.full hr h (by simp [noHard, OS.full])
   obtain ⟨c1, _⟩ := idealRecord_closed B hB data t size OS.full hi
   simp only [h1, c1]
+
+/-! ### the transforming streams of lib/xfrm (for every codec) -/
+
+/-- **`xfrm_istream_chunking_independent`.** A decompressing istream (`lib/xfrm/src/istream.c`: `precache` loop
+feeding an arbitrary incremental codec `C` from the wrapped stream's windows) on top of the file istream: for
+every codec, every buffer sizes, every client history and every script of short counts and `EINTR`s, the client
+observes exactly what it observes when the wrapped stream is the ideal window stream and the OS never splits a
+call.  No assumption on the codec is needed: the OS reaches it only through the wrapped stream's windows, and
+those are the same (`istream_bytes`). -/
+theorem xfrm_istream_chunking_independent {κ : Type} (C : Codec κ) (k0 : κ) (BX limit B : Nat) (hB : 0 < B)
+    (data : Bytes) (ops : List Op) (o : OStream) (ln : Nat) (os : OS) (h : noHard os.sc = true) :
+    (runOps (xfrmStream (fileStream B) C BX limit) ⟨⟨IStream.init data, k0, 0, []⟩, o, ln⟩ ops os).1 =
+      (runOps (xfrmStream (idealStream B data) C BX limit) ⟨⟨⟨0, 0⟩, k0, 0, []⟩, o, ln⟩ ops OS.full).1 ∧
+    (runOps (xfrmStream (fileStream B) C BX limit) ⟨⟨IStream.init data, k0, 0, []⟩, o, ln⟩ ops os).1 =
+      (runOps (xfrmStream (fileStream B) C BX limit) ⟨⟨IStream.init data, k0, 0, []⟩, o, ln⟩ ops OS.full).1 := by
+  have hf : noHard OS.full.sc = true := by simp [noHard, OS.full]
+  have hsim := xfrm_sim (file_sim B hB data) C BX limit
+  have hrc : RC (XRel (Rel B data)) (⟨⟨IStream.init data, k0, 0, []⟩, o, ln⟩ : Client (XStream IStream κ))
+      ⟨⟨⟨0, 0⟩, k0, 0, []⟩, o, ln⟩ := ⟨⟨rel_init B data, rfl, rfl, rfl⟩, rfl, rfl⟩
+  obtain ⟨h1, _⟩ := runOps_sim hsim ops _ _ os OS.full hrc h hf
+  obtain ⟨h2, _⟩ := runOps_sim hsim ops _ _ OS.full OS.full hrc hf hf
+  exact ⟨h1, h1.trans h2.symm⟩
+
+/-- **`xfrm_ostream_script_independent`.** A compressing ostream (`lib/xfrm/src/ostream.c`: `xfrm_append`,
+`flush_inbuf`, `xfrm_flush` around an arbitrary codec) on top of the file ostream: for every codec and every
+sequence of append / hole / flush calls, the status, the failing index, the codec state, the pending input and
+the bytes in the output file are the same under every script of short counts and `EINTR`s as when every `write`
+completes in full. -/
+theorem xfrm_ostream_script_independent {κ : Type} (C : Codec κ) (BX limit : Nat) (ops : List OOp) (x : XOStream κ)
+    (os : OS) (h : noHard os.sc = true) :
+    (xRunOOps C BX limit 0 x ops os).1 = (xRunOOps C BX limit 0 x ops OS.full).1 ∧
+    (xRunOOps C BX limit 0 x ops os).2.1 = (xRunOOps C BX limit 0 x ops OS.full).2.1 :=
+  xRunOOps_indep C BX limit ops 0 x os OS.full h (by simp [noHard, OS.full])
 
 /-! ### non-vacuity: concrete scripts with short counts, `EINTR` bursts and hard errors -/
 
